@@ -1,1 +1,48 @@
-(* placeholder *) From Klepto Require Import CacheCore.
+(* C15  Statistics are an exact account of what happened. *)
+From Klepto Require Import OMap CacheDict CacheCore CoreInv CoreStep CoreSize CoreExn.
+
+(* Ground truth is read off the state BEFORE the call (classify): Hit = key resident;
+   Loaded = not resident but held by the attached archive (no_cache: any retrieved result);
+   Evaluated otherwise.  Every completed call increments exactly that counter by one; a call that
+   raises changes no counter. *)
+Theorem C15_stats_exact : forall c s kr fr orc,
+  stats_claim (fst (call c s kr fr orc)) (snd (call c s kr fr orc)) (bump s (classify c s kr)) (stats s).
+Proof. exact stats_exact. Qed.
+
+(* hit + miss + load = number of completed calls *)
+Theorem C15_total : forall c s kr fr orc,
+  match snd (call c s kr fr orc) with
+  | ORet _ _ => total (fst (call c s kr fr orc)) = total s + 1
+  | ORaise EIndexError _ => True
+  | _ => total (fst (call c s kr fr orc)) = total s
+  end.
+Proof. exact total_exact. Qed.
+
+(* size = resident entries, maxsize = configured bound *)
+Theorem C15_info : forall c s,
+  step c s Info = (s, OInfo (hits s) (misses s) (loads s) (info_max c) (size (smem s))).
+Proof. exact info_spec. Qed.
+
+(* clear() empties the memory cache and zeroes the counters, clear(keepstats=True) keeps them *)
+Theorem C15_clear : forall c s keep, c_alg c <> NO ->
+  smem (do_clear c s keep) = [] /\ stats (do_clear c s keep) = if keep then stats s else (0, 0, 0).
+Proof. exact clear_spec. Qed.
+
+(* load/dump/archive toggling/lookup/key never touch the counters *)
+Theorem C15_frame : forall c s o, (forall kr fr orc, o <> Call kr fr orc) -> (forall keep, o <> Clear keep) ->
+  stats (fst (step c s o)) = stats s.
+Proof. exact stats_frame. Qed.
+
+Example C15_witness :
+  let c := mkCfg MRU 2 false false false in
+  let s0 := init_state (mkC [] (AStore [(3, 13)]) ANull) in
+  let s := run c s0 [Call (KOk 1) (Ret 11) 0; Call (KOk 1) (Ret 11) 0; Call (KOk 3) (Ret 13) 0;
+                     Call (KOk 9) Raise 0; Call (KOk 4) (Ret 14) 0] in
+  stats s = (1, 2, 1) /\ classify c s0 (KOk 3) = Loaded /\ classify c s0 (KOk 1) = Evaluated.
+Proof. cbv zeta. repeat split; vm_compute; reflexivity. Qed.
+
+Print Assumptions C15_stats_exact.
+Print Assumptions C15_total.
+Print Assumptions C15_info.
+Print Assumptions C15_clear.
+Print Assumptions C15_frame.
